@@ -29,7 +29,8 @@ Scan(f, i, acc) ==    \* returns [err, keys]
 ImplKeyAccept(f, k) == LET s == Scan(f, 1, {}) IN ~s.err /\ k \in s.keys
 
 \* ---- password callback for the service users
-Users == {"health", "schedule", "continuous", "other"}
+Users == {"health", "schedule", "continuous", "other", "healthcase", "schedulecase"}   \* ...case: a service user's name in another letter case
+ServiceName(u) == u \in {"health", "schedule", "continuous"}
 Passwords == {"HEALTHPW", "job1", "job2", "job3", "jobX", "wrong", ""}
 Addrs == {"ip1", "ip2", "ip1x", "ipz", "ip6l", "ip6u"}   \* ip1x: an address that has ip1 as a textual prefix (127.0.0.1 vs 127.0.0.10);
                                                          \* ip6l / ip6u: IPv6 sources, one on an allow list, one on none
